@@ -1,5 +1,6 @@
 import EoNVerif.Props.C08
 import EoNVerif.Model.InitCond
+import EoNVerif.Props.C06b
 /-!
 C06 — the conservation / sign-structure theorems about the right-hand-side models are stated and proved in
 `Props/C08.lean` (same file as the limit identities, one development about `Model/ODE.lean`):
